@@ -520,3 +520,158 @@ def _(L):
     E = search_env(L.st, L.engine.ct, L.args)
     attrib, val = L.args["attrib"].term, L.args["val"].term
     return bfs_inner_inv(L, E, with_out=False, extra=lambda acc: [nomatch(L.st, acc, attrib, val)])
+
+
+@contract("depthfirst.dfs_iterative", SEARCH_PARAMS, props=("C08",), shards=4)
+def _(c):
+    E = search_env(c.S, c.ct, c.args)
+    S = c.S
+    wellformed(c, E)
+    attrib, val = c.attrib, c.val("val").term
+    bad = And(E.uni != NONE, Or(Len(S.members(E.uni)) == 0, Not(Mem(S.members(E.uni), E.start))))
+    c.raises("ValueError", when=bad, label="empty-or-start-outside")
+    K, rest = c.ghost("K", Int), c.ghost("rest", RSeq)
+    res = c.ghost("$result", Ref)
+    DS, DD = E.DS_(*E.key, K), E.DD_(*E.key, K)
+    o = c.normal(when=Not(bad), label="searched")
+    o.result(VRef(res, "Vertex"))
+    o.fact(Or(
+        And(res == NONE, DS == EMPTY()),                               # the machine ran to completion, nothing matched
+        And(res != NONE, DS == cat(rest, unit(res)), Not(Mem(DD, res)), E.inU(res),      # res is the vertex listed next
+            match(S, res, attrib, val))))
+    o.fact_schema(nomatch(S, DD, attrib, val, "nothing-listed-before-matches"))
+    cache_only_effects(o, S)
+
+
+@REG.loop("depthfirst.dfs_iterative", 0)
+def _(L):
+    E = search_env(L.st, L.engine.ct, L.args)
+    attrib, val = L.args["attrib"].term, L.args["val"].term
+    S = L.st
+    ct = L.engine.ct
+    stack, disc = L.env["stack"].ref, L.env["discovered"].ref
+    if L.phase == "entry":
+        k = z3.IntVal(0)
+    elif L.phase == "assume":
+        k = L.k
+    else:
+        k = L.env["$K"].term + 1
+    DSk, DDk = E.DS_(*E.key, k), E.DD_(*E.key, k)
+    defs, sdefs = dfsi_defs(E), []
+    if L.phase == "check":
+        v, rest = L.pghost["last_pop"]
+        g, sch = dfsi_step(E, L.env["$K"].term, rest, v)
+        defs += g
+        sdefs += sch
+    elems_c = lambda new: [Schema("stack-and-discovered", (Ref,), lambda r: And(Implies(r == stack, new(r) == DSk),
+                                                                                 Implies(r == disc, new(r) == DDk)), trigger=("elems",))]
+    return LoopInv(facts=[k >= 0], ground_defs=defs, defs=sdefs, define={"$K": VInt(k)},
+                   loose=loop_cache_loose(elems_c, (stack, disc)),
+                   schemas=[Schema("stacked-and-discovered-are-vertices", (Ref,), lambda x: Implies(
+                       Or(Mem(DSk, x), Mem(DDk, x)), And(x != NONE, ct.is_a(x, "Vertex")))),
+                       Schema("discovered-duplicate-free", (Ref,), lambda x: Cnt(DDk, x) <= 1),
+                       nomatch(S, DDk, attrib, val)])
+
+
+@REG.loop("depthfirst.dfs_iterative", 1)
+def _(L):
+    S = L.st
+    stack, disc = L.env["stack"].ref, L.env["discovered"].ref
+    rest, dd = S.elems(stack), S.elems(disc)
+    elems_c = lambda new: [Schema("stack-and-discovered", (Ref,), lambda r: And(Implies(r == stack, new(r) == cat(rest, L.prefix)),
+                                                                                 Implies(r == disc, new(r) == dd)), trigger=("elems",))]
+    return LoopInv(loose=loop_cache_loose(elems_c, (stack, disc)))
+
+
+# ---- recursive search: first match of the recursive pre-order ------------------------------------------------------
+
+
+def dfm_funcs(E: Env):
+    hk = E.hk
+    dfm_ = z3.Function(f"DFSr_firstmatch@{hk}", Ref, Int, Int, Ref, T.Str, Ref, Ref, RSeq, Ref)        # uni,d,u,fv, attrib,val, x, V
+    dffm_ = z3.Function(f"DFSr_firstmatch_fold@{hk}", Ref, Int, Int, Ref, T.Str, Ref, RSeq, Ref, RSeq, Ref)  # ..., p, x, V
+    return dfm_, dffm_
+
+
+def dfm_defs(E: Env, S, attrib, val, prefix, x, V, whole=None, elem=None):
+    """first match strictly below x in the recursive pre-order (same recursion as dfo / dff):
+       dffm([], x, V) = None;   dffm(p ++ [w]) = dffm(p) if that is not None, else (w not taken -> None;
+       w taken -> w if it matches, else dfm(w, V ++ dff(p)));   dfm(x, V) = dffm(N(x), x, V)"""
+    dfm_, dffm_ = dfm_funcs(E)
+    k = (E.uni, E.d, E.u, E.fv, attrib, val)
+
+    def dfm(y, W):
+        return dfm_(*k, y, W)
+
+    def dffm(p, y, W):
+        return dffm_(*k, p, y, W)
+    out = [dffm(EMPTY(), x, V) == NONE, dfm(x, V) == dffm(E.N(x), x, V)]
+    parts = T._flat(prefix)
+    if parts and T._is_unit(parts[-1]) and not T._is_empty(prefix):
+        w = parts[-1].arg(0)
+        head = cat(*parts[:-1])
+        m, r = dffm(head, x, V), dff(E, head, x, V)
+        take = And(E.inU(w), Not(Mem(V, w)), Not(Mem(r, w)))
+        out.append(dffm(prefix, x, V) == If(m != NONE, m, If(take, If(match(S, w, attrib, val), w, dfm(w, cat(V, r))), NONE)))
+    if elem is not None:
+        # a match found while scanning a prefix is the match of the whole scan (Lean: firstmatch_fold_persists)
+        pw = snoc(prefix, elem)
+        out.append(Implies(dffm(pw, x, V) != NONE, dffm(whole, x, V) == dffm(pw, x, V)))
+        m, r = dffm(prefix, x, V), dff(E, prefix, x, V)
+        take = And(E.inU(elem), Not(Mem(V, elem)), Not(Mem(r, elem)))
+        out.append(dffm(pw, x, V) == If(m != NONE, m, If(take, If(match(S, elem, attrib, val), elem, dfm(elem, cat(V, r))), NONE)))
+    return out, dfm, dffm
+
+
+@contract("depthfirst._dfs_recur", "uni:Universe?, v:Vertex, visited:dict, attrib:str, val:any", props=("C08",), shards=2)
+def _(c):
+    E = Env(c.S, c.ct, c.args, start_key="v")
+    S = c.S
+    wellformed(c, E)
+    attrib, val = c.attrib, c.val("val").term
+    vis = c.val("visited").ref
+    V = S.read("dkeys", vis)
+    c.requires(vis != NONE, "visited-is-a-dict")
+    c.requires(Not(Mem(V, E.start)), "v-not-yet-visited")
+    _defs, dfm, _dffm = dfm_defs(E, S, attrib, val, EMPTY(), E.start, V)
+    res = c.ghost("$result", Ref)
+    o = c.normal(label="searched")
+    o.result(VRef(res, "Vertex"))
+    o.fact(res == dfm(E.start, V))
+    # when nothing below v matches, the whole subtree of v has been visited (in pre-order)
+    o.loose("dkeys", lambda new, old, *_: [Schema("visited-after-unsuccessful-search", (Ref,), lambda r: If(
+        r == vis, Implies(res == NONE, new(r) == cat(V, dfo(E, E.start, V))), new(r) == old(r)), trigger=("dkeys",))])
+    cache_only_effects(o, S)
+
+
+@REG.loop("depthfirst._dfs_recur", 0)
+def _(L):
+    E = Env(L.st, L.engine.ct, L.args, start_key="v")
+    S = L.st
+    attrib, val = L.args["attrib"].term, L.args["val"].term
+    vis = L.args["visited"].ref
+    V0 = L.pre.read("dkeys", vis)
+    x = E.start
+    r = dff(E, L.prefix, x, V0)
+    st = S.copy()
+    st.write("dkeys", vis, cat(V0, r))
+    defs, sdefs = dfr_defs(E, L.prefix, x, V0)
+    mdefs, dfm, dffm = dfm_defs(E, S, attrib, val, L.prefix, x, V0, L.seq, L.elem)
+    return LoopInv(state=st, facts=[dffm(L.prefix, x, V0) == NONE], ground_defs=defs + mdefs, defs=sdefs,
+                   loose=loop_cache_loose(None))
+
+
+@contract("depthfirst.dfs_recursive", SEARCH_PARAMS, props=("C08",))
+def _(c):
+    E = search_env(c.S, c.ct, c.args)
+    S = c.S
+    wellformed(c, E)
+    attrib, val = c.attrib, c.val("val").term
+    bad = And(E.uni != NONE, Or(Len(S.members(E.uni)) == 0, Not(Mem(S.members(E.uni), E.start))))
+    c.raises("ValueError", when=bad, label="empty-or-start-outside")
+    m0 = match(S, E.start, attrib, val)
+    c.normal(when=And(Not(bad), m0), result=VRef(E.start, "Vertex"), label="start-matches")
+    _defs, dfm, _dffm = dfm_defs(E, S, attrib, val, EMPTY(), E.start, EMPTY())
+    o = c.normal(when=And(Not(bad), Not(m0)), result=VRef(dfm(E.start, EMPTY()), "Vertex"), label="searched")
+    cache_only_effects(o, S)
+    o.loose("dkeys", lambda new, old, *_: [])
